@@ -24,6 +24,11 @@ Theorem open_routes_only_known : forall r, In r routes -> route_ok shape_now r =
 Proof. exact open_routes_are_known. Qed.
 Print Assumptions open_routes_only_known.
 
+(* (T) every handler with the authenticated signature uses its user argument, except the exactly named known ones *)
+Theorem user_ignored_only_known : forallb known_ignoring handlers_ignoring_user = true.
+Proof. exact user_ignored_only_known_check. Qed.
+Print Assumptions user_ignored_only_known.
+
 (* (T) AddRoutes wraps the meta.User signature with authenticate(.., h.Config.AuthEnabled), replaces no handler
    afterwards, registers by (pattern, method); nothing registers on the mux elsewhere; ServeHTTP ends in the mux. *)
 Theorem addroutes_shape : shape_ok shape_now = true.
